@@ -252,6 +252,16 @@ def systematic_corner():
     # AtMostKInARow with k >= T (vacuous)
     out.append(case(F, cross(full, [1, 2], [K("AtMostKInARow", k=4, f=2, l=1)]), "B", ["AtMostKInARow", "vacuous"], "cor-atmost-big"))
     out.append(case(F, cross(full, [1, 2], [K("AtMostKInARow", k=9, f=2, l=0)]), "B", ["AtMostKInARow", "vacuous"], "cor-atmost-huge"))
+    # weighted levels of a non-derived factor that is NOT crossed (R11: copies are distinct solutions reported under one name)
+    Fw = stroop()
+    Fw[1]["w"] = [2, 1]                      # word is weighted and uncrossed below
+    for X, xn in [([1], "x1"), ([1, 4], "x14")]:
+        out.append(case(Fw, cross(full, X), "B", ["weights-uncrossed", xn], "cor-wu-%s" % xn))
+        out.append(case(Fw, cross(full, X, [K("AtMostKInARow", k=1, f=2, l=1)]), "B", ["weights-uncrossed", "AtMostK", xn], "cor-wu-%s-atmost" % xn))
+        out.append(case(Fw, cross(full, X, [K("ExactlyK", k=1, f=2, l=1)]), "B", ["weights-uncrossed", "ExactlyK", xn], "cor-wu-%s-exk" % xn))
+        out.append(case(Fw, cross(full, X, [K("Exclude", f=3, l=1)], False), "B", ["weights-uncrossed", "Exclude-derived", xn], "cor-wu-%s-exd" % xn))
+        out.append(case(Fw, cross(full, X, [K("AtMostKInARow", k=1, f=3, l=1)]), "B", ["weights-uncrossed", "AtMostK-derived", xn], "cor-wu-%s-atmostd" % xn))
+    out.append(case(Fw, cross([1, 2], [1], [K("MinimumTrials", k=3)]), "B", ["weights-uncrossed", "MinimumTrials"], "cor-wu-min3"))
     # MinimumTrials below the crossing size, equal to it, 1
     for m in (1, 3, 4):
         out.append(case(F, cross(full, [1, 2], [K("MinimumTrials", k=m)]), "B", ["MinimumTrials", "small"], "cor-min%d" % m))
@@ -377,4 +387,55 @@ def random_flat(rng, n, max_T=8):
         blk = cross(ids, X, cons, rcc)
         tags = sorted(set([c["c"] for c in cons] + [F[i - 1].get("dkind", "basic") for i in ids]))
         out.append(case(F, blk, "A", tags, "rnd-%d" % len(out)))
+    return out
+
+
+# ---------------------------------------------------------------------------------------------
+# C23: weighted levels (crossed, uncrossed, on derived levels, referenced by derived factors and constraints)
+
+def weighted_cases(rng, n):
+    out = []
+    tries = 0
+    while len(out) < n and tries < n * 40:
+        tries += 1
+        F = [basic("a", 2), basic("b", rng.choice([2, 3])), basic("c", 2)]
+        F.append(derived(F, "d", [1, 2], "within", nl=2, rng=rng))
+        F.append(derived(F, "t", [rng.choice([1, 2])], "transition", nl=2, rng=rng))
+        design = [1, 2, 3, 4, 5] if rng.random() < 0.5 else [1, 2, 4]
+        X = sorted(rng.sample([i for i in design if i != 4] if rng.random() < 0.7 else design, rng.choice([1, 2])))
+        if 4 in X and (1 in X or 2 in X):
+            continue
+        # weights: one or two factors, crossed or not, possibly a derived level
+        for i in rng.sample(design, rng.choice([1, 2])):
+            if F[i - 1]["kind"] == "d" and i not in X and rng.random() < 0.7:
+                continue
+            F[i - 1]["w"][rng.randrange(len(F[i - 1]["w"]))] = rng.choice([2, 2, 3])
+        size = 1
+        for i in X:
+            size *= sum(F[i - 1]["w"])
+        pre = max([F[i - 1]["start"] for i in X if F[i - 1]["kind"] == "d"] + [0])
+        T = pre + size
+        cons = []
+        if rng.random() < 0.3 and T < 7:
+            T = rng.randrange(T + 1, 8)
+            cons.append(K("MinimumTrials", k=T))
+        if T > 7:
+            continue
+        unc = [i for i in design if F[i - 1]["kind"] == "b" and i not in X]
+        est = 1.0
+        for i in unc:
+            est *= sum(F[i - 1]["w"]) ** T
+        if est > 3000:
+            continue
+        for _ in range(rng.choice([0, 1, 1])):
+            kind = rng.choice(["AtMostKInARow", "ExactlyK", "Pin", "AtMostKInARow"])
+            fid = rng.choice([i for i in design if not is_complex(F, i)])
+            l = rng.randrange(1, len(F[fid - 1]["levels"]) + 1)
+            if kind == "AtMostKInARow":
+                cons.append(K(kind, k=rng.choice([1, 2]), f=fid, l=rng.choice([0, l])))
+            elif kind == "ExactlyK":
+                cons.append(K(kind, k=rng.randrange(1, 3), f=fid, l=l))
+            else:
+                cons.append(K(kind, i=rng.choice([0, -1, 1]), f=fid, l=l))
+        out.append(case(F, cross(design, X, cons, True), "B", ["weights"] + [c["c"] for c in cons], "w-%d" % len(out)))
     return out
